@@ -274,6 +274,15 @@ fn boxing_case(cs: &mut Cases, class: &str, name: &str, ir: &Value, cfg: &GenCfg
                         _ => None,
                     }
                 }
+                // the whole Rust type of each object field (boxes aside) against Model/RustType.lean
+                if k == "object" {
+                    for (i, f) in fields.iter().enumerate() {
+                        if let (Some(sx), Some(Some(ty))) = (type_sexp(&f["type"]), tys.get(i)) {
+                            let has_key_double = sx.contains("(set,") || sx.contains("(map,");
+                            cs.push("rust-type", format!("rusttype {}", sx), norm_type(ty), has_key_double && sx.contains("DOUBLE"), format!("the type of field `{}` of {} in {}", f["fieldName"].as_str().unwrap_or(""), rust_name, name));
+                        }
+                    }
+                }
                 let this_pkg = t[k]["typeName"]["package"].as_str().unwrap_or("");
                 for (i, f) in fields.iter().enumerate() {
                     if let (Some(tn), Some(Some(ty))) = (target(&f["type"]), tys.get(i)) {
@@ -294,6 +303,40 @@ fn boxing_case(cs: &mut Cases, class: &str, name: &str, ir: &Value, cfg: &GenCfg
     }
     defs.push(')');
     cs.push(class, format!("boxing {}", defs), real.join(";"), any_ref, format!("which references the types generated for {} hold behind a Box", name));
+}
+
+/// a Rust type as the model renders it: path prefixes dropped, `Box` transparent, no blanks
+fn norm_type(ty: &syn::Type) -> String {
+    if let syn::Type::Path(p) = ty {
+        if let Some(seg) = p.path.segments.last() {
+            let args: Vec<String> = match &seg.arguments {
+                syn::PathArguments::AngleBracketed(a) => a.args.iter().filter_map(|g| if let syn::GenericArgument::Type(t) = g { Some(norm_type(t)) } else { None }).collect(),
+                _ => vec![],
+            };
+            if seg.ident == "Box" && args.len() == 1 {
+                return args[0].clone();
+            }
+            return if args.is_empty() { seg.ident.to_string() } else { format!("{}<{}>", seg.ident, args.join(",")) };
+        }
+    }
+    quote::quote!(#ty).to_string().replace(' ', "")
+}
+
+/// a Conjure type as the model reads it
+fn type_sexp(t: &Value) -> Option<String> {
+    Some(match t["type"].as_str()? {
+        "primitive" => format!("(p,{})", t["primitive"].as_str()?),
+        "optional" => format!("(opt,{})", type_sexp(&t["optional"]["itemType"])?),
+        "list" => format!("(list,{})", type_sexp(&t["list"]["itemType"])?),
+        "set" => format!("(set,{})", type_sexp(&t["set"]["itemType"])?),
+        "map" => format!("(map,{},{})", type_sexp(&t["map"]["keyType"])?, type_sexp(&t["map"]["valueType"])?),
+        "reference" => {
+            let n = t["reference"]["name"].as_str()?.to_upper_camel_case();
+            format!("(r,{})", if n == "Self" { "Self_".to_string() } else { n })
+        }
+        "external" => format!("(x,{})", type_sexp(&t["external"]["fallback"])?),
+        _ => return None,
+    })
 }
 
 /// a package as the generator names its modules: each component followed by `_` when it is a Rust keyword
@@ -494,6 +537,7 @@ pub fn cases(seed: u64, tier: Tier) -> Cases {
     }
     let _ = case_of_doc;
     crate_mode(&mut cs, &mut rng, tier);
+    cli_cases(&mut cs);
     cs
 }
 
@@ -501,6 +545,82 @@ pub fn cases(seed: u64, tier: Tier) -> Cases {
 /// combination of runtime dependencies the generated manifest can list occurs) plus seeded documents; the generated
 /// crates — their own Cargo.toml included — are built as members of one workspace whose only addition is a
 /// `[patch.crates-io]` that points the runtime crates at /repo.
+/// "every configuration, generation reports success" through the command-line tool: every spelling of the two boolean
+/// flags (absent, bare, `=true`, `=false`), with and without a prefix, in both orders — so that each flag is also once
+/// the last thing before the definition's path
+fn cli_cases(cs: &mut Cases) {
+    let cli = match crate::ops::c20::build_cli() {
+        Ok(c) => c,
+        Err(e) => {
+            cs.push("cli", "noop".into(), "noop".into(), true, "building the command-line tool".into());
+            cs.fail_last("cli:build", e);
+            return;
+        }
+    };
+    let root = work().join("cli");
+    let _ = std::fs::remove_dir_all(&root);
+    std::fs::create_dir_all(&root).unwrap();
+    let ir_path = root.join("ir.json");
+    std::fs::write(&ir_path, serde_json::to_vec(&shapes()[1].1).unwrap()).unwrap();
+    let spell = |name: &str, k: usize| -> Option<String> {
+        match k {
+            0 => None,
+            1 => Some(format!("--{}", name)),
+            2 => Some(format!("--{}=true", name)),
+            _ => Some(format!("--{}=false", name)),
+        }
+    };
+    let mut n = 0;
+    for e in 0..4 {
+        for s in 0..4 {
+            for strip in [false, true] {
+                for swapped in [false, true] {
+                    let mut flags: Vec<String> = vec![];
+                    let (a, b) = (spell("exhaustive", e), spell("serializeEmptyCollections", s));
+                    if strip {
+                        flags.push("--stripPrefix=com.palantir".to_string());
+                    }
+                    if swapped {
+                        flags.extend(b.clone());
+                        flags.extend(a.clone());
+                    } else {
+                        flags.extend(a.clone());
+                        flags.extend(b.clone());
+                    }
+                    let out = root.join(format!("out{}", n));
+                    n += 1;
+                    let o = Command::new(&cli).arg("generate").args(&flags).arg(&ir_path).arg(&out).output();
+                    let files = {
+                        let mut t = BTreeMap::new();
+                        read_tree_c03(&out, &out, &mut t);
+                        t.len()
+                    };
+                    cs.push("cli", "noop".into(), "noop".into(), e == 1 || s == 1, format!("conjure-rust generate {} <ir> <out>", flags.join(" ")));
+                    match o {
+                        Ok(o) if o.status.success() && files > 0 => {}
+                        Ok(o) => cs.fail_last("cli:generation-failed", format!("`conjure-rust generate {} <ir> <out>` exits with {:?} and writes {} files: {}", flags.join(" "), o.status.code(), files, String::from_utf8_lossy(&o.stderr).chars().take(300).collect::<String>())),
+                        Err(e) => cs.fail_last("cli:generation-failed", e.to_string()),
+                    }
+                }
+            }
+        }
+    }
+    let _ = std::fs::remove_dir_all(&root);
+}
+
+fn read_tree_c03(root: &std::path::Path, dir: &std::path::Path, out: &mut BTreeMap<String, usize>) {
+    if let Ok(rd) = std::fs::read_dir(dir) {
+        for e in rd.flatten() {
+            let p = e.path();
+            if p.is_dir() {
+                read_tree_c03(root, &p, out);
+            } else {
+                out.insert(p.strip_prefix(root).unwrap().to_string_lossy().to_string(), 1);
+            }
+        }
+    }
+}
+
 fn crate_mode(cs: &mut Cases, rng: &mut Rng, tier: Tier) {
     let pkg = "com.palantir.crates";
     let tn = |n: &str| json!({"name": n, "package": pkg});
